@@ -818,7 +818,8 @@ def replay_corpus(hz, job, c):
 
 def replay_canary(hz, job, c):
     from . import c12audit
-    probs = c12audit.audit_run(hz, [c]) + [p for p in c12audit.pint_canary(hz) if p[0] == c]
+    probs = [p for p in c12audit.pint_canary(hz) if p[0] == c]          # first: audit_run would leave the compiled filter in the cache
+    probs = probs or c12audit.audit_run(hz, [c])
     return ('filter %r: %s' % probs[0]) if probs else None
 
 
